@@ -222,6 +222,15 @@ func (o *oracle) acceptable(t *tgt, ver string) (acc map[string]string, open map
 // expect returns pass | fail | open and, for pass, the class/algorithm of the matching value.
 func (o *oracle) expect(t *tgt, ver string) (string, string) {
 	acc, open := o.acceptable(t, ver)
+	declared := 0
+	for _, v := range t.Declared {
+		if v != "" {
+			declared++
+		}
+	}
+	if declared == 0 { // empty strings are dropped by the BUILD language: nothing is declared
+		return "open", ""
+	}
 	for i, v := range t.Declared {
 		if a, ok := acc[strip(v)]; ok {
 			rel := "checker-only"
@@ -286,7 +295,9 @@ func declare(rng *rand.Rand, s *spec, t *tgt, rf refs, nonconf string) {
 				k = len(h) - 1
 			}
 			v := h[:k]
-			if rng.Intn(3) == 0 {
+			if rng.Intn(3) == 0 || k == 0 {
+				// (a bare "" is never declared: the BUILD language drops empty strings from string lists, so it
+				// declares nothing; "algo: " with an empty value is a declared, non-matching value)
 				v = a + ": " + v
 			}
 			add(v, "truncated")
@@ -493,7 +504,7 @@ func TestC35(t *testing.T) {
 	r.Rule = "case = one (target with declared hashes, plz build invocation) verdict in a generated history; distinct by (hash configuration, shape, declared list, content version, phase of the history); non-trivial = the declared list contains at least one value derived from a real hash of the outputs (correct, prefixed, for the other content version, near-miss, truncated, extended, other algorithm, upper-case), i.e. not garbage only"
 	r.Assumes = []string{"`plz hash` on a twin target that declares a dummy hash prints the documented hash of its outputs under the active build.hashfunction", "sha1/sha256 of a single output file are computed independently and cross-checked against the twin", "generated commands are deterministic functions of their source file", "whether an action executed is observed by a mkdir marker baked into the command"}
 	bin := lib.PlzBin(false)
-	n := r.Pick(18, 700)
+	n := r.Pick(18, 200)
 	steps := 5
 	r.ForEach("history", n, 8, func(i int, rng *rand.Rand) {
 		sb := e2e.NewSandbox(filepath.Join(r.Scratch(), fmt.Sprintf("h%d", i)))
@@ -658,7 +669,14 @@ func TestC35(t *testing.T) {
 					// situation (phase) is the cause, otherwise the declared value is
 					key := "rejected-correct-hash/never-accepted/" + tg.Shape + "/" + how
 					if everPassed[vk] {
-						key = "rejected-correct-hash/accepted-earlier-in-history/" + pc + "/" + tg.Shape
+						// how the matching value can be reached by Please's two comparisons: the hash under the repository's
+						// hash function (always tried first), and the per-checker recomputation (never for a directory output's
+						// documented value, and only for algorithms listed in hashcheckers)
+						via := "match-also-reachable-via-hashcheckers"
+						if a := strings.Split(how, "/"); tg.Shape == "dir" || !has(s.checkers(), a[len(a)-2]) {
+							via = "match-only-via-hashfunction-comparison"
+						}
+						key = "rejected-correct-hash/accepted-earlier-in-history/" + pc + "/" + via
 					}
 					r.Violation(key, fmt.Sprintf("%s (%s) fails (%s) although a declared value is the hash of its outputs under a configured algorithm (%s)", tg.label(), tg.Shape, pc, how), w(), i)
 				case exp == "fail" && ok:
@@ -799,6 +817,15 @@ func TestC35(t *testing.T) {
 	})
 	r.RequireObserved("build_invocations", "twin_hash_invocations", "expected_pass_confirmed", "expected_fail_confirmed", "failure_persisted_across_invocations",
 		"verified_outputs_compared", "restored_from_cache_and_verified", "cache_files_poisoned", "poisoned_restore_rejected_and_rebuilt")
+}
+
+func has(ss []string, v string) bool {
+	for _, x := range ss {
+		if x == v {
+			return true
+		}
+	}
+	return false
 }
 
 func must(err error) {
